@@ -58,6 +58,12 @@ Proof.
   apply N.add_le_mono_r. exact IH.
 Qed.
 
+(* wrappers over the fixed bound: proofs below never unfold [sh_sum] *)
+Lemma sh_sum_add f g : sh_sum (fun v => f v + g v) = sh_sum f + sh_sum g.
+Proof. exact (fsum_add nvotes f g). Qed.
+Lemma sh_sum_empty : sh_sum sh_empty = 0.
+Proof. exact (fsum_zero nvotes). Qed.
+
 Definition vote_ok (v : vote) : Prop := (N.to_nat v < nvotes)%nat.
 
 (* shares delegated to [to] by the accounts that voted (each vote counted) *)
@@ -154,9 +160,9 @@ Proof.
     destruct (tally_votes_own to ov delegs votes Hov Hvs (add_shares sh_empty ov ts)) as [m [Hm Hsum]].
     { rewrite add_get_same. unfold sh_empty. lia. }
     exists m. split; [exact Hm|]. rewrite Hsum, add_sum by exact Hov.
-    unfold sh_sum. rewrite fsum_zero. lia.
+    rewrite sh_sum_empty. lia.
   - destruct (tally_votes_none to delegs votes Hvs sh_empty) as [m [Hm Hsum]].
-    exists m. split; [exact Hm|]. rewrite Hsum. unfold sh_sum. rewrite fsum_zero. lia.
+    exists m. split; [exact Hm|]. rewrite Hsum, sh_sum_empty. lia.
 Qed.
 
 Lemma stake_pure_le bal ts s : ts <> 0 -> stake_pure bal ts s <= s * bal / ts.
@@ -166,15 +172,24 @@ Qed.
 Lemma stake_pure_ts0 bal s : stake_pure bal 0 s = 0.
 Proof. unfold stake_pure. rewrite N.eqb_refl, !orb_true_r. reflexivity. Qed.
 
-Lemma validator_stakes_le bal ts m : sh_sum m <= ts -> sh_sum (validator_stakes bal ts m) <= bal.
+(* stated for an arbitrary bound [n] so that no proof step ever unfolds the 256-fold sum *)
+Lemma stakes_le_n n bal ts (m : shmap) :
+  fsum n m <= ts -> fsum n (fun v => stake_pure bal ts (m v)) <= bal.
 Proof.
-  intros H. unfold sh_sum, validator_stakes in *.
-  destruct (N.eq_dec ts 0) as [->|Hts].
-  - rewrite (fsum_ext _ _ sh_empty) by (intros v; apply stake_pure_ts0). rewrite fsum_zero. lia.
-  - eapply N.le_trans; [apply fsum_le; intros v; apply stake_pure_le; exact Hts|].
-    eapply N.le_trans; [apply fsum_div_le; exact Hts|].
+  intros H.
+  destruct (N.eq_dec ts 0) as [Hts|Hts].
+  - assert (E : fsum n (fun v => stake_pure bal ts (m v)) = fsum n sh_empty).
+    { apply fsum_ext. intros v. subst ts. apply stake_pure_ts0. }
+    rewrite E, fsum_zero. apply N.le_0_l.
+  - apply N.le_trans with (fsum n (fun v => m v * bal / ts)).
+    { apply fsum_le. intros v. apply stake_pure_le. exact Hts. }
+    apply N.le_trans with (fsum n m * bal / ts).
+    { apply (fsum_div_le n m bal ts Hts). }
     rewrite N.mul_comm. apply mul_frac_le; assumption.
 Qed.
+
+Lemma validator_stakes_le bal ts m : sh_sum m <= ts -> sh_sum (validator_stakes bal ts m) <= bal.
+Proof. exact (stakes_le_n nvotes bal ts m). Qed.
 
 Lemma share_inv_tail v r delegs votes :
   share_inv (v :: r) delegs votes -> share_inv r delegs votes.
@@ -187,14 +202,14 @@ Lemma tally_results_ok validators delegs votes :
              sh_sum rs <= total_voting_stake validators.
 Proof.
   intros Hvs. induction validators as [|[[to bal] ts] r IH]; intros Hinv; cbn [tally_results total_voting_stake].
-  - exists sh_empty. split; [reflexivity|]. unfold sh_sum. rewrite fsum_zero. lia.
+  - exists sh_empty. split; [reflexivity|]. rewrite sh_sum_empty. lia.
   - destruct (validator_shares_ok to ts delegs votes Hvs) as [m [Hm Hms]].
     { apply (Hinv to bal ts). left. reflexivity. }
     destruct (IH (share_inv_tail _ _ _ _ Hinv)) as [rest [Hrest Hrs]].
     rewrite Hm. cbn [bind]. rewrite Hrest. cbn [bind].
     eexists. split; [reflexivity|].
-    unfold sh_sum in *. rewrite fsum_add.
-    pose proof (validator_stakes_le bal ts m Hms) as Hst. unfold sh_sum in Hst. lia.
+    rewrite (sh_sum_add (validator_stakes bal ts m) rest).
+    pose proof (validator_stakes_le bal ts m Hms) as Hst. lia.
 Qed.
 
 Lemma close_proposal_ok rs total th :
